@@ -457,6 +457,10 @@ fn op_issue(i: &Value) -> R<Value> {
 	}
 	let now = now_unix();
 	let not_after = now + i["valid_secs"].as_i64().unwrap_or(90 * 86400);
+	// optional: notBefore of the end-entity certificate (seconds relative to now; a CA whose clock runs ahead)
+	// and its subject CN (a name that is NOT among the subjectAltName entries given by `dns` / `ips`)
+	let leaf_not_before = now + i["not_before_offset"].as_i64().unwrap_or(-3600);
+	let leaf_cn = i["cn"].as_str().unwrap_or("verif level 0").to_string();
 	let chain_len = i["chain_len"].as_u64().unwrap_or(2).max(1) as usize;
 	let mut pems = String::new();
 	let mut subject_pub = pk;
@@ -475,9 +479,9 @@ fn op_issue(i: &Value) -> R<Value> {
 			&signer,
 			&cur_dns,
 			&cur_ips,
-			now - 3600,
+			if level == 0 { leaf_not_before } else { now - 3600 },
 			if level == 0 { not_after } else { now + 3650 * 86400 },
-			&format!("verif level {level}"),
+			&(if level == 0 { leaf_cn.clone() } else { format!("verif level {level}") }),
 			&format!("verif level {}", level + 1),
 			level > 0,
 		)?;
